@@ -6,5 +6,5 @@
 Definition code_is_fixed : bool := false.
 
 (* The "dict" branch of ModelObject.from_dict drops entries whose value is falsy (0.0):
-   true = pinned code, false = after proposed_fixes/C09-summary-zero-value.diff. *)
+   true = pinned code, false = after proposed_fixes/C08-dict-falsy-constant.diff (removes the filter). *)
 Definition dict_drops_zero : bool := true.
